@@ -301,7 +301,7 @@ public:
                                               1);
     }
 
-    int compare(size_type pos1, size_type n1, StringView x) const noexcept
+    int compare(size_type pos1, size_type n1, StringView x) const
     {
         return substr(pos1, n1).compare(x);
     }
